@@ -1294,7 +1294,21 @@ func (a *App) InitChainer(ctx sdk.Context, req abcitypes.RequestInitChain) abcit
 		panic(err)
 	}
 	a.UpgradeKeeper.SetModuleVersionMap(ctx, a.mm.GetVersionMap())
-	return a.mm.InitGenesis(ctx, a.AppCodec(), state)
+	res := a.mm.InitGenesis(ctx, a.AppCodec(), state)
+	// Make sure every module account exists as a module account from the first
+	// block on. Module addresses are not blocked in the bank keeper, so a plain
+	// send to a not-yet-created module address would otherwise create a base
+	// account there and make every later GetModuleAccount / module transfer
+	// panic ("account is not a module account"), including in begin blockers.
+	names := make([]string, 0)
+	for name := range a.ModuleAccountsPermissions() {
+		names = append(names, name)
+	}
+	sort.Strings(names)
+	for _, name := range names {
+		a.AccountKeeper.GetModuleAccount(ctx, name)
+	}
+	return res
 }
 
 // LoadHeight loads a particular height.
